@@ -46,7 +46,35 @@ fn p(k: Kind) -> Node {
 
 /// (schema, values) biased to control block sizes
 pub fn payload_case(rng: &mut Rng) -> (RSchema, Vec<Val>, &'static str) {
-	match rng.below(7) {
+	match rng.below(8) {
+		7 => {
+			// long collections inside one value: arrays / maps of 999..5000 items (the header's metadata map is limited to
+			// 1000 entries; values are not), in one or several blocks
+			let rs = RSchema {
+				nodes: vec![
+					p(Kind::Record {
+						name: "Long".into(),
+						fields: vec![("xs".into(), 1), ("m".into(), 3), ("tail".into(), 2)],
+					}),
+					p(Kind::Array(2)),
+					p(Kind::Long),
+					p(Kind::Map(2)),
+				],
+			};
+			let n = 1 + rng.below(3);
+			let vals = (0..n)
+				.map(|_| {
+					let na = *rng.pick(&[0usize, 999, 1000, 1001, 2500, 5000]);
+					let nm = *rng.pick(&[0usize, 3, 1000, 1001, 1500]);
+					Val::Record(vec![
+						Val::Array((0..na).map(|i| Val::Long(i as i64 - 7)).collect()),
+						Val::Map((0..nm).map(|i| (format!("k{i}"), Val::Long(i as i64))).collect()),
+						Val::Long(ValueGen::interesting_i64(rng)),
+					])
+				})
+				.collect();
+			(rs, vals, "long-collections")
+		}
 		0 => {
 			// single bytes schema, exact encoded sizes
 			let rs = RSchema { nodes: vec![p(Kind::Bytes)] };
